@@ -453,7 +453,14 @@ package classifier
 //@   modifies entries(dict.indices) when updateDict
 //@   props C10 C09 C03 C06 C04
 //@
+//@ // C08: spos is the position in the reader's byte sequence of the decode
+//@ // cursor. It moves only with the bytes the decoder consumes (or pushes back),
+//@ // never when the buffer is refilled: no byte is skipped or decoded twice
+//@ // across buffer boundaries, however the reader fragments its data.
+//@ ghostvar spos int
 //@ func tokenizeStream
+//@   ghostset spos = streamPos[src] atentry
+//@   uses SUBSLICE-REV
 //@   requires dict != nil && ((updateDict || !normalize) ==> wfDict(dict))
 //@   ensures result1 != nil ==> result0 == nil
 //@   ensures typeis(src, "*bytes.Reader") ==> result1 == nil
@@ -463,15 +470,19 @@ package classifier
 //@   ensures dict.words == old(dict.words) && dict.indices == old(dict.indices)
 //@   modifies entries(dict.words) when updateDict || !normalize
 //@   modifies entries(dict.indices) when updateDict || !normalize
+//@   ghostset spos = spos + value - oldvalue onstore idx in loop 2
+//@   loop 1 invariant streamPos[src] == spos + idx && (forall j int :: 0 <= j && j < idx ==> rbuf[j] == streamByte(src, spos + j))
+//@   loop 2 invariant streamPos[src] == spos - idx + ite(err == nil, 1024, tgt) && (forall j int :: 0 <= j && j < ite(err == nil, 1024, tgt) ==> rbuf[j] == streamByte(src, spos - idx + j))
 //@   loop 1 invariant tgt == 1020 && 0 <= idx && idx <= 4 && line >= 1 && wfDict(ld) && fresh(ld) && fresh(ld.words) && fresh(ld.indices)
 //@   loop 1 invariant sortedLines(&doc) && boundedLines(&doc, line)
 //@   loop 1 invariant okLines(&doc) && okPseudo(doc.Matches) && (doc.Tokens == nil || fresh(doc.Tokens)) && (doc.Matches == nil || fresh(doc.Matches))
-//@   loop 1 invariant (obuf == nil || fresh(obuf)) && (linebuf == nil || fresh(linebuf))
+//@   loop 1 invariant (obuf == nil || fresh(obuf)) && (linebuf == nil || fresh(linebuf)) && fresh(rbuf) && len(rbuf) == 1024 && off(rbuf) == 0 && ref(obuf) != ref(rbuf)
 //@   loop 2 invariant 0 <= idx && idx <= 1024 && 0 <= tgt && tgt <= 1024 && line >= 1 && wfDict(ld) && fresh(ld) && fresh(ld.words) && fresh(ld.indices)
 //@   loop 2 invariant sortedLines(&doc) && boundedLines(&doc, line)
 //@   loop 2 invariant okLines(&doc) && okPseudo(doc.Matches) && (doc.Tokens == nil || fresh(doc.Tokens)) && (doc.Matches == nil || fresh(doc.Matches))
-//@   loop 2 invariant (obuf == nil || fresh(obuf)) && (linebuf == nil || fresh(linebuf))
-//@   loop 3 invariant obuf == nil || fresh(obuf)
+//@   loop 2 invariant (obuf == nil || fresh(obuf)) && (linebuf == nil || fresh(linebuf)) && fresh(rbuf) && len(rbuf) == 1024 && off(rbuf) == 0 && ref(obuf) != ref(rbuf)
+//@   loop 3 invariant (obuf == nil || fresh(obuf)) && fresh(rbuf) && len(rbuf) == 1024 && off(rbuf) == 0 && ref(obuf) != ref(rbuf)
+//@   loop 3 invariant forall j int :: 0 <= j && j < ite(err == nil, 1024, tgt) ==> rbuf[j] == streamByte(src, spos - idx + j)
 //@   props C10 C03 C08 C09 C04
 //@
 //@ func NewClassifier
